@@ -254,5 +254,10 @@ class PublishSeqnum(Spec):
         return [("every-assignment-of-the-new-seqnum-is-highest_seqnum()+1", z3.BoolVal(ok))]
 
 
+def extra_checks(rep, tier):
+    from contracts import grid_mutable
+    grid_mutable.grid_check(rep, tier, "C11")
+
+
 def contracts(tier):
     return [Recoverable(), Unrecoverable(), SharesAvailable(), Best(), HighestSeqnum(), UnrecoverableNewer(), NeedsMerge(), ReadKeepsQuerying(), PublishSeqnum()]
